@@ -42,8 +42,30 @@ def run(prog, chk):
     inner_events_guard(prog, chk)
     no_precheck(prog, chk)
     unreadable_tag_stays_raw(prog, chk)
+    clip_lookup_needs_a_box(prog, chk)
     from props import strops
     strops.check_for(prog, chk, "C03")  # A14.str-ops: how this property's strings are cut up is a reviewed, frozen inventory
+
+
+def clip_lookup_needs_a_box(prog, chk):
+    """an element that contributes no box of its own (a namespaced <svg> embedded as it is, a <defs>, <style> ...) is
+    not looked at further: in SvgElement::generate_events the `clip-path` reference is resolved only on the path where
+    the element has a bounding box - on the other path an unknown id is not this tool's business and must not fail"""
+    from sa import discharge as D
+
+    b = prog.body("<svgdx::element::SvgElement as svgdx::transform::EventGen>::generate_events")
+    chk.touch(b)
+    sites = b.call_sites(lambda c: c.decl_path == "svgdx::context::ElementMap::get_element")
+    if not sites:
+        chk.undecided("A13.clip-lookup", "generate_events", b.where(), "no get_element call in SvgElement::generate_events")
+        return
+    for k, (bb, t, c) in enumerate(sites):
+        guarded = False
+        for (a, x) in D.dominating_edges(b, bb):
+            sd = R.switch_discr_place(b, a)
+            if sd and "Option<svgdx::position::BoundingBox>" in sd[1] and any(v == 1 and tg == x for v, tg in b.term(a)["vals"]):
+                guarded = True
+        chk.ob(guarded, "A13.clip-lookup", f"generate_events:get_element#{k}", b.where(bb, t.get("line")), "the clip-path reference is resolved only for an element that has a bounding box", "SvgElement::generate_events resolves the clip-path reference of an element that has no bounding box: embedded content that is passed through as it is (a namespaced <svg> with clip-path=\"url(#x)\") now fails with a reference error instead of being copied")
 
 
 def unreadable_tag_stays_raw(prog, chk):
